@@ -104,6 +104,29 @@ theorem writes_applied_on_return (p : SProg) (fuel : Nat) (st : SSt) (key x v1 v
   simp only [exec, runBody, hops, hex]
   simp [exec, SSt.emit, hwq]
 
+theorem runBody_output (k : SSt → Task → SSt × Option Nat) (p : SProg) (st : SSt) (kind : SKind) (key defKey cnt x : Nat) :
+    (runBody k p st kind key defKey cnt x).2 = x * 100 + cnt := by
+  unfold runBody; dsimp only; split <;> rfl
+
+/-- **Returns its output whenever it ran** (`spawned_syscall`): if the spawned system exists and is idle, the call runs
+    it and returns `input * 100 + cnt` — whatever the body and its queued commands do, including despawning the
+    system's own entity while it runs (the put-back is then skipped, the output is still returned). An error therefore
+    means "missing or running", never "ran". -/
+theorem spawned_present_returns (p : SProg) (fuel : Nat) (st : SSt) (key x cnt : Nat) (h : st.sstore key = some (some cnt)) :
+    (exec p (fuel + 1) st (.call ⟨.s, key, x⟩)).2 = some (x * 100 + cnt) := by
+  simp only [exec, h]
+  rw [runBody_output]
+
+/-- ... and conversely an error is returned only if nothing ran: the state is unchanged. -/
+theorem spawned_error_means_not_run (p : SProg) (fuel : Nat) (st : SSt) (key x : Nat)
+    (h : (exec p (fuel + 1) st (.call ⟨.s, key, x⟩)).2 = none) : (exec p (fuel + 1) st (.call ⟨.s, key, x⟩)).1 = st := by
+  cases hs : st.sstore key with
+  | none => simp [exec, hs]
+  | some o =>
+    cases o with
+    | none => simp [exec, hs]
+    | some cnt => rw [spawned_present_returns p fuel st key x cnt hs] at h; cases h
+
 /-- Non-vacuity: a fresh world, one leaf call. -/
 example : (exec ⟨fun _ _ _ => [], fun _ _ => false⟩ 2 ({} : SSt) (.call ⟨.f, 0, 5⟩)).2 = some 500 := by
   rw [syscall_leaf _ 1 _ 0 5 rfl rfl]; rfl
